@@ -392,8 +392,8 @@ def do_replay(lane, path, quiet):
     got = vclasses(res)
     rep = bool(set(want) & set(got)) if want else False
     same = res["digest"] == doc["expect"]["digest"]
-    print("REPLAY reproduced=%s digest=%s classes=%s" % ("yes" if rep else "no",
-                                                          "same" if same else "different", got))
+    print("REPLAY reproduced=%s digest=%s classes=%s attributed_findings=%s"
+          % ("yes" if rep else "no", "same" if same else "different", got, res.get("findings", [])))
     if not quiet:
         for v in res["viol"][:6]:
             print("  ", jdump(v))
